@@ -33,7 +33,7 @@ class LinkNative(Contract):
     symbolic = False
     has_native = True
     props = ("C20",)
-    bounded_scope = "4 EM receiver/transmitter class pairs + tipper receivers/base stations + DC potential/current electrodes; link from either side; edit a shared parameter through either side with and without having read the partner first; re-link to a second partner; re-open and fetch one side only; plain copy; linking by a metadata document with identifiers as text (plain and braced); tipper copies from either side inside the same workspace"
+    bounded_scope = "4 EM receiver/transmitter class pairs + tipper receivers/base stations + DC potential/current electrodes; link from either side; edit a shared parameter through either side with and without having read the partner first; re-link to a second partner; re-open and fetch one side only; plain copy; linking by a metadata document with identifiers as text (plain and braced); tipper copies from either side inside the same workspace; airborne parameters switched between a number and a data channel through alternating sides; DC pairs re-linked elsewhere from the other side and linked again"
 
     def native_cases(self, tier, rng):
         for rx, tx in EM_PAIRS:
@@ -43,8 +43,10 @@ class LinkNative(Contract):
                 # linking by assigning the survey description with the identifiers given as text
                 for form in ("plain", "braces"):
                     yield {"family": "em", "rx": rx, "tx": tx, "direction": direction, "scenario": "link-by-metadata-text", "form": form}
+                if rx.startswith("Airborne"):
+                    yield {"family": "em", "rx": rx, "tx": tx, "direction": direction, "scenario": "parameter-number-then-channel"}
         for direction in ("rx=>tx", "tx=>rx"):
-            for scenario in ("basic", "relink", "reopen"):
+            for scenario in ("basic", "relink", "reopen", "relink-back"):
                 yield {"family": "dc", "direction": direction, "scenario": scenario}
         for scenario in ("basic", "reopen", "copy-receivers", "copy-base-stations"):
             yield {"family": "tipper", "scenario": scenario}
@@ -111,6 +113,14 @@ class LinkNative(Contract):
                 tx.channels = [3.0]
                 if rx.channels != [3.0]:
                     return f"channels edited through the transmitters are {rx.channels} on the receivers ({case})"
+            if case["scenario"] == "parameter-number-then-channel":
+                chan = rx.add_data({"yaw_channel": {"values": np.arange(len(rx.vertices), dtype=float)}})
+                for first, second, side_a, side_b in ((3.5, chan.uid, tx, rx), (chan.uid, 7.25, rx, tx)):
+                    for attr in ("yaw", "pitch"):
+                        setattr(side_a, attr, first)
+                        setattr(side_b, attr, second)
+                        if getattr(rx, attr) != second or getattr(tx, attr) != second:
+                            return f"{attr} set to {first!r} through one side and then to {second!r} through the other reads rx={getattr(rx, attr)!r} tx={getattr(tx, attr)!r} ({case})"
             if case["scenario"] == "relink":
                 tx2 = TX.create(ws, vertices=_verts(off=5.0), name="tx2")
                 rx2 = RX.create(ws, vertices=_verts(off=6.0), name="rx2")
@@ -187,8 +197,20 @@ class LinkNative(Contract):
                     bad = check(rx2, tx, "after re-linking the current electrodes to a second potential electrode")
                 if bad:
                     return f"{bad} ({case})"
+            if case["scenario"] == "relink-back":
+                # the partner is taken away by a link made from the other side, then the first link is made again
+                rx2, tx2 = mk(ws, "2")
+                if case["direction"] == "rx=>tx":
+                    tx.potential_electrodes = rx2  # from the current side: rx still caches tx
+                    rx.current_electrodes = tx     # linking again from the potential side must take effect
+                else:
+                    rx.current_electrodes = tx2
+                    tx.potential_electrodes = rx
+                bad = check(rx, tx, "after the pair was re-linked elsewhere from the other side and then linked again")
+                if bad:
+                    return f"{bad} ({case})"
             uids = (rx.uid, tx.uid)
-        if case["scenario"] == "reopen":
+        if case["scenario"] in ("reopen", "relink-back"):
             with Workspace(path, mode="r") as ws:
                 bad = check(ws.get_entity(uids[0])[0], ws.get_entity(uids[1])[0], "after re-opening")
                 if bad:
@@ -441,3 +463,103 @@ class EMCopy(Contract):
 
 
 CONTRACTS = [LinkNative, EMMetadataSet, TransmittersSet, ReceiversSet, CellCopyStub, EMCopy]
+
+
+class AirborneSetMetadata(Contract):
+    """AirborneEMSurvey.set_metadata: a survey parameter is either a number or a reference to a data
+    channel, never both: assigning one form clears the other (the reader gives the number priority),
+    assigning None clears both."""
+    target = "geoh5py/objects/surveys/electromagnetics/base.py::AirborneEMSurvey.set_metadata"
+    props = ("C20",)
+    lenient = True
+
+    def cases(self):
+        return [(k, form) for k in ("yaw", "pitch", "inline_offset") for form in ("number", "channel", "cleared")]
+
+    def setup(self, ctx):
+        import uuid
+
+        me = em_self(ctx, "AirborneTEMReceivers")
+        em = Opaque("edit_em_metadata")
+        em.maybe_method = lambda I, a, kw: I.event("edit", entries=a[0])
+        me.attrs["edit_em_metadata"] = em
+        key, form = ctx.case
+        value = {"number": 3.5, "channel": uuid.UUID(int=99), "cleared": None}[form]
+        ctx.env.update(value=value)
+        return [me, key, value], {}
+
+    def post(self, ctx, result):
+        from geoh5py.objects.surveys.electromagnetics.base import AirborneEMSurvey
+
+        key, form = ctx.case
+        field = AirborneEMSurvey._PROPERTY_MAP[key]  # pylint: disable=protected-access
+        merged = {}
+        for k, p in ctx.path.events:
+            if k == "edit":
+                ent = p["entries"]
+                merged.update(ent.items if isinstance(ent, PDict) else dict(ent))
+        v = ctx.env["value"]
+        want = {field + " value": v if form == "number" else None, field + " property": v if form == "channel" else None}
+        for k, w in want.items():
+            ctx.oblige(f"{k.split()[-1]}-entry-is-{'set' if w is not None else 'cleared'}", k in merged and merged[k] == w,
+                       note=f"'{k}' is {'left as it was' if k not in merged else merged[k]!r}: the other form of the parameter stays visible")
+
+
+class ElectrodeMetadataStub(Contract):
+    """summary of BaseElectrode.metadata.fset for the link setters: the record is stored on the entity
+    (its validation and persistence are the metadata setter's own business)."""
+    target = "geoh5py/objects/surveys/direct_current.py::BaseElectrode.metadata.fset"
+    symbolic = False
+    props = ()
+
+    def apply(self, I, args, kwargs):
+        ent, values = args[0], args[1]
+        ent.attrs["metadata"] = values
+        I.event("metadata-set", entity=ent)
+        return None
+
+
+class PotentialLinksCurrent(Contract):
+    """PotentialElectrode.current_electrodes = tx: whatever partner either side had cached, both
+    entities record both identifiers and cache each other afterwards."""
+    target = "geoh5py/objects/surveys/direct_current.py::PotentialElectrode.current_electrodes.fset"
+    props = ("C20",)
+    lenient = True
+    uses = (ElectrodeMetadataStub,)
+
+    def cases(self):
+        return ["first-link", "same-partner-cached-but-re-linked-elsewhere", "other-partner-cached"]
+
+    def setup(self, ctx):
+        import uuid
+
+        from geoh5py.objects import CurrentElectrode, PotentialElectrode
+
+        me = Opaque("self", cls=PotentialElectrode)
+        tx = Opaque("tx", cls=CurrentElectrode)
+        other = Opaque("other-tx", cls=CurrentElectrode)
+        for o in (me, tx, other):
+            o.distinct = True
+        me.attrs["uid"], tx.attrs["uid"] = uuid.UUID(int=1), uuid.UUID(int=2)
+        me.attrs["_current_electrodes"] = {"first-link": None, "same-partner-cached-but-re-linked-elsewhere": tx, "other-partner-cached": other}[ctx.case]
+        tx.attrs["_potential_electrodes"] = None if ctx.case == "first-link" else Opaque("someone-else")
+        me.attrs["ab_cell_id"] = None
+        tx.attrs["ab_cell_id"] = None
+        ctx.env.update(me=me, tx=tx)
+        return [me, tx], {}
+
+    def post(self, ctx, result):
+        e = ctx.env
+        me, tx = e["me"], e["tx"]
+        want = {"Current Electrodes": tx.attrs["uid"], "Potential Electrodes": me.attrs["uid"]}
+        for who, ent in (("the-potential-electrodes", me), ("the-current-electrodes", tx)):
+            md = ent.attrs.get("metadata")
+            got = md.items if isinstance(md, PDict) else (dict(md) if isinstance(md, dict) else None)
+            ctx.oblige(f"{who}-record-both-identifiers", got == want, note=f"recorded {got}")
+        ctx.oblige("both-sides-cache-each-other", me.attrs.get("_current_electrodes") is tx and tx.attrs.get("_potential_electrodes") is me)
+
+    def post_raises(self, ctx, sig):
+        ctx.oblige("linking-two-electrode-objects-does-not-raise", False, kind="post-exc", note=f"{sig.exc_class.__name__}")
+
+
+CONTRACTS = CONTRACTS + [AirborneSetMetadata, ElectrodeMetadataStub, PotentialLinksCurrent]
